@@ -51,8 +51,20 @@ def schema_reads(repo, key, param, seen=None):
             for t in n.targets:
                 if isinstance(t, ast.Name):
                     names.add(t.id)
+    shadowed = set()
+    for n in own_nodes(fn):
+        if isinstance(n, (ast.GeneratorExp, ast.ListComp, ast.SetComp, ast.DictComp)):
+            bound = set()
+            for g in n.generators:
+                bound |= set(_names(g.target))
+            if bound & names:
+                for sub in ast.walk(n):
+                    if isinstance(sub, ast.Name) and sub.id in bound:
+                        shadowed.add(id(sub))
     for n in own_nodes(fn):
         if not (isinstance(n, ast.Name) and n.id in names and isinstance(n.ctx, ast.Load)):
+            continue
+        if id(n) in shadowed:
             continue
         p = parents.get(id(n))
         # schema.get(K[, d])
@@ -75,6 +87,11 @@ def schema_reads(repo, key, param, seen=None):
                 keys.add(p.left.value)
                 continue
             problems.append("membership test with non-constant key at line %d" % n.lineno)
+            continue
+        if isinstance(p, ast.Compare) and len(p.ops) == 1 and isinstance(p.ops[0], (ast.Is, ast.IsNot)) and \
+                all(isinstance(c, ast.Constant) and c.value in (True, False, None) for c in [p.left] + p.comparators if c is not n):
+            continue      # kind test: `schema is True`
+        if isinstance(p, ast.Call) and isinstance(p.func, ast.Name) and p.func.id == "isinstance" and p.args and p.args[0] is n:
             continue
         if isinstance(p, ast.keyword) and p.arg in ("schema", "_schema"):
             continue      # record use: ValidationError(schema=schema) / error._set(schema=schema)
